@@ -18,6 +18,8 @@ try:
     fired = {}
     for p in props:
         r = subprocess.run(['/verif/bin/ibcheck','-prop',p,'-verif','/verif','-out',tmp],capture_output=True,text=True)
+        if r.returncode not in (0, 1):
+            print('CHECKER CRASHED (exit %d) on -prop %s:\n%s' % (r.returncode, p, (r.stderr or r.stdout)[-600:]))
         if not os.path.isdir(os.path.join(tmp,'evidence')):
             print('CHECKER PRODUCED NO EVIDENCE:\n'+r.stdout[-500:]+r.stderr[-500:]); continue
         for f in sorted(os.listdir(os.path.join(tmp,'evidence'))):
